@@ -58,8 +58,10 @@ def gen_scenario(R, size="small"):
     else:
         cuts = sorted(R.sample(range(1, len(stream)), min(len(stream) - 1, R.choice([1, 2, 5]))))
         chunks = [stream[a:b] for a, b in zip([0] + cuts, cuts + [len(stream)])]
+    cred = lambda: R.choice([None, None, "", "user name", "p|w%+é"])
     return {"kind": "data", "pool": R.choice([1, 1, 2, 3, 4]), "items": items, "requests": requests, "script": script,
-            "ext": ext, "chunks": chunks, "probe": R.random() < 0.5}
+            "ext": ext, "chunks": chunks, "probe": R.random() < 0.5, "user": cred(), "password": cred(),
+            "early": R.random() < 0.3}
 
 
 def gen_event(R, items):
@@ -186,6 +188,7 @@ def run_real(scn, choose):
 
     srv = S.DataProviderServer(Adapter(), ("proxy", 6661), keep_alive=0, thread_pool_size=scn["pool"])
     srv._subscription_mgr._active_items_lock.label = "mgr"
+    srv.remote_user, srv.remote_password = scn.get("user"), scn.get("password")
     run.srv = srv
 
     def snapshot():
@@ -217,8 +220,16 @@ def run_real(scn, choose):
             sock.inbound.append(c.encode("ascii"))
             sched.event("deliver", c)
     try:
-        sched.spawn("M", main)
-        sched.spawn("P", proxy)
+        if scn.get("early"):
+            # request bytes already readable at connect time: the proxy delivers everything before start()
+            pt = sched.spawn("P", proxy)
+            sched.run(until=lambda: pt.done)
+            for ch in sched.chunks:
+                ch["snap"] = snapshot()
+            sched.spawn("M", main)
+        else:
+            sched.spawn("M", main)
+            sched.spawn("P", proxy)
 
         # the snapshot hook needs to know when the reader sits between its two lock sections
         def snap_hook():
@@ -299,7 +310,7 @@ def exc_tok_named(name, msg):
 def driver_lines(run):
     """One `k …` line per model-relevant chunk; returns (lines, index map to chunks)."""
     scn = run.scn
-    lines, idx = ["cosim data %d" % scn["pool"]], [None]
+    lines, idx = ["cosim data %d %s %s" % (scn["pool"], ari.c_optstr(scn.get("user")), ari.c_optstr(scn.get("password")))], [None]
     chunks = run.chunks
     lsn_pending = {}      # thread -> event dict of the listener call in progress
     for n, ch in enumerate(chunks):
@@ -679,4 +690,35 @@ def oracle_c19(run, A, V):
                 V("dead-manager-not-empty", "a removed manager of %s still holds work: queued=%s" % (item, g._queued))
 
 
-ORACLES = {"C01": oracle_c01, "C02": oracle_c02, "C03": oracle_c03, "C16": oracle_c16, "C17": oracle_c17, "C19": oracle_c19}
+def oracle_c14(run, A, V):
+    lines = "".join(A.sent).split("\r\n")
+    if lines and lines[-1] == "":
+        lines.pop()
+    if not lines:
+        if run.status == "quiescent":
+            V("credentials-missing", "nothing was written on the connection")
+        return
+    first = lines[0]
+    if not first.startswith("1|RAC|"):
+        V("credentials-not-first", "first line on the connection is %r" % first[:80])
+        return
+    if sum(1 for l in lines if l.split("|")[1:2] == ["RAC"]) != 1:
+        V("credentials-repeated", "the credentials message was written more than once")
+    try:
+        m, kind, params = ari.decode_reply(first[2:])
+    except Exception as e:
+        V("credentials-malformed", "%r: %s" % (first, e))
+        return
+    u, p = run.scn.get("user"), run.scn.get("password")
+    want = ([("user", u)] if u is not None else []) + ([("password", p)] if p is not None else []) + \
+        [("enableClosePacket", "true"), ("SDK", "Python Adapter SDK")]
+    if params != want:
+        V("credentials-content", "credentials message carries %r, configuration is user=%r password=%r" % (params, u, p))
+    # enqueued before the reader thread exists
+    t_rac = next((t for t, tid, m in A.enq if "|RAC|" in m), None)
+    t_reader = next((t for t, ch in enumerate(run.chunks) if ch["tid"] == "R"), None)
+    if t_rac is not None and t_reader is not None and not t_rac < t_reader:
+        V("reader-before-credentials", "the reader thread ran before the credentials message was enqueued")
+
+
+ORACLES = {"C14": oracle_c14, "C01": oracle_c01, "C02": oracle_c02, "C03": oracle_c03, "C16": oracle_c16, "C17": oracle_c17, "C19": oracle_c19}
